@@ -123,6 +123,19 @@ Theorem C01_step_write_file : forall (s : fsys) (sv : sview) (w : list str) (cl 
   = go_write_file s sv (abs_path (w ++ [cl])) data perm.
 Proof. exact step_write_file. Qed.
 
+(* OpenFile as a call of its own, for the flag sets O_RDONLY and O_WRONLY|O_CREATE|O_TRUNC: same resulting file
+   system; same errno, or the handle is on the node open(2) returns *)
+Theorem C01_step_open_rdonly : forall (s : fsys) (sv : sview) (vi : nat) (cs : list str) (perm : N),
+  step_hyps s sv -> path_ok s sv SlEval cs ->
+  open_sim (open_file s (sv_view sv) vi (abs_path cs) 0 perm) (k_open s sv (abs_path cs) 0 perm).
+Proof. exact step_open_rdonly. Qed.
+
+Theorem C01_step_open_create_trunc : forall (s : fsys) (sv : sview) (vi : nat) (w : list str) (cl : str) (perm : N),
+  step_hyps s sv -> path_ok s sv SlLstat (w ++ [cl]) -> path_ok s sv SlEval (w ++ [cl]) ->
+  no_setgid_parent_follow s sv (w ++ [cl]) ->
+  open_sim (open_file s (sv_view sv) vi (abs_path (w ++ [cl])) WCT perm) (k_open s sv (abs_path (w ++ [cl])) WCT perm).
+Proof. exact step_open_wct. Qed.
+
 (* one step of the two step functions of the models (the statement the oracle stream's "T" column tests):
    covered call => same projected result, and the abstraction relation is kept (same file system, same view) *)
 Theorem C01_step : forall (w : world) (vi : nat) (sw : sworld) (c : call),
